@@ -386,12 +386,9 @@ def translate_expression(expr, env: Env) -> TExp:  # noqa: C901
             subs = {}
             for a, fa in zip(args, def_f[1]):
                 if isinstance(a[1], List):
+                    # The i-th bit of the actual argument replaces the i-th bit of the formal
                     for i in range(len(a[1])):  # type: ignore
-                        index = ".".join(a[1][i].name.split(".")[1:])  # type: ignore
-                        if index == "":
-                            index = f"{i}"
-
-                        subs[f"{fa.name}.{index}"] = a[1][i]  # type: ignore
+                        subs[fa.bitvec[i]] = a[1][i]  # type: ignore
 
                 else:
                     subs[fa.name] = a[1]
